@@ -501,7 +501,7 @@ impl Default for GenCfg {
             alphabet: 4,
             max_depth: 3,
             bound_from_alphabet: true,
-            avoid_same_node_shadowing: true,
+            avoid_same_node_shadowing: false,
             max_fv: 3,
             ops: None,
             payload_u32_max: 3,
